@@ -44,10 +44,18 @@ def sh(cmd, cwd=None, timeout=1800, env=None):
         e.update(env)
     for k in [k for k, v in e.items() if v == ""]:
         del e[k]
+    # own process group, killed as a whole on timeout: a mutant may make a test binary (a grandchild) loop forever
+    import signal
+    p = subprocess.Popen(cmd, cwd=cwd, env=e, stdout=subprocess.PIPE, stderr=subprocess.STDOUT, text=True, errors="replace", start_new_session=True)
     try:
-        p = subprocess.run(cmd, cwd=cwd, env=e, stdout=subprocess.PIPE, stderr=subprocess.STDOUT, timeout=timeout, text=True, errors="replace")
-        return p.returncode, p.stdout
+        out, _ = p.communicate(timeout=timeout)
+        return p.returncode, out
     except subprocess.TimeoutExpired:
+        try:
+            os.killpg(p.pid, signal.SIGKILL)
+        except ProcessLookupError:
+            pass
+        p.communicate()
         return 124, "timeout"
 
 
@@ -141,7 +149,7 @@ def run(n, seed, flt):
             if rc != 0:
                 rec["outcome"] = "does-not-build"
             else:
-                rc, out = sh(["cargo", "test", "--workspace", "--no-fail-fast", "--offline"], cwd=MREPO, timeout=1200)
+                rc, out = sh(["cargo", "test", "--workspace", "--no-fail-fast", "--offline"], cwd=MREPO, timeout=600)
                 if rc != 0:
                     rec["outcome"] = "killed-by-tests"
                 else:
